@@ -4,7 +4,9 @@
 (*                                                                                                            *)
 (* One trace = one network:  [name, n, links = <<<<a, b, len, k>>, ...>> (directed arcs as the GENERATOR of the *)
 (* topology knows them, not as gnpy's OMS/isdisjoint see them), opt, tol (length units), ev].  One event = one batch handed   *)
-(* to the pipeline, with what came back for every request: a blocking reason, or the element list projected   *)
+(* to the pipeline (reqs, groups, relax = 1 for every group written `relaxable: true`, as the batch was       *)
+(* WRITTEN, not as the code read it), with what came back for every request: a blocking reason, or the        *)
+(* element list projected                                                                                     *)
 (* to                                                                                                         *)
 (*    src, dst   site of the transceiver the list starts / ends with (0 if it is no transceiver)              *)
 (*    sites      the ROADMs crossed, in order                                                                 *)
@@ -65,7 +67,7 @@ ConcreteViol(G, e, k, tol) ==
 
 EventViol(tr, e) ==
   LET G == GraphOfTrace(tr)
-      b == [reqs |-> e.reqs, groups |-> e.groups]
+      b == [reqs |-> e.reqs, groups |-> e.groups, relax |-> e.relax]
       o == Abstract(e)
   IN  (IF tr.opt = 1 THEN Judge(G, b, FactsOf(G, b), o, tr.tol) ELSE JudgeStructural(G, b, o))
       \cup (IF e.err = 1 THEN {} ELSE UNION {{<<k, c>> : c \in ConcreteViol(G, e, k, tr.tol)} : k \in 1..Len(e.reqs)})
